@@ -195,6 +195,64 @@ def dehazard(e, parent=None, side=None):
     return e
 
 
+def int_typed(e):
+    """True if the emitted BASIC09 expression for e has type INTEGER (so that / truncates and + - * wrap):
+    results of NOT/AND/OR (LNOT/LAND/LOR), LEN, ASC, PEEK and arithmetic on such values.  Literals, variables,
+    array elements, hex literals (emitted as float($..)) and everything routed through a temporary are REAL."""
+    k = e[0]
+    if k == "par":
+        return int_typed(e[1])
+    if k == "un":
+        return True if e[1] == "NOT" else int_typed(e[2])
+    if k == "bin":
+        if e[1] in ("AND", "OR"):
+            return True
+        if e[1] in ("+", "-", "*", "/"):
+            return int_typed(e[2]) and int_typed(e[3])
+        return False
+    if k == "fn":
+        if e[1] in ("LEN", "ASC", "PEEK"):
+            return True
+        if e[1] in ("ABS", "SGN"):
+            return int_typed(e[2][0])
+        return False
+    return False
+
+
+def has_int_division(e):
+    k = e[0]
+    if k == "bin":
+        if e[1] == "/" and int_typed(e[2]) and int_typed(e[3]):
+            return True
+        return has_int_division(e[2]) or has_int_division(e[3])
+    if k == "un":
+        return has_int_division(e[2])
+    if k == "par":
+        return has_int_division(e[1])
+    if k in ("fn", "arr"):
+        return any(has_int_division(a) for a in e[2])
+    return False
+
+
+def realify_divisions(e):
+    """Same Color BASIC value, but no division has two INTEGER-typed operands (adds '+0' to the divisor)."""
+    k = e[0]
+    if k == "bin":
+        a, b = realify_divisions(e[2]), realify_divisions(e[3])
+        if e[1] == "/" and int_typed(a) and int_typed(b):
+            b = ("par", ("bin", "+", b, num(0)))
+        return ("bin", e[1], a, b)
+    if k == "un":
+        return ("un", e[1], realify_divisions(e[2]))
+    if k == "par":
+        return ("par", realify_divisions(e[1]))
+    if k == "fn":
+        return ("fn", e[1], [realify_divisions(a) for a in e[2]])
+    if k == "arr":
+        return ("arr", e[1], [realify_divisions(a) for a in e[2]])
+    return e
+
+
 def uses_fn(e, names):
     k = e[0]
     if k == "fn":
